@@ -152,7 +152,8 @@ def _pool(i: int):
     return [HTMLDependency("alpha", "1.9", source={"subdir": "src/a"}, script={"src": "a b.js"}, stylesheet={"href": "a.css"},
                            meta={"name": "m", "content": "c<"}, head="<!--a-->"),
             HTMLDependency("beta", "2.0", source={"href": "http://cdn/x/"}, script=[{"src": "b.js", "async": ""}]),
-            HTMLDependency("gamma", "0.1", head=Tag("title", "T&"))][i]
+            HTMLDependency("gamma", "0.1", head=TagList(Tag("title", "T&"), Tag("script", HTML('var r=/\\d+\\1/, p="C:\\\\t\\n\\g<0>";'))),
+                           meta={"name": "b\\s", "content": "x\\1y"})][i]
 
 
 @harness("C13", pre=lambda B, p, m, q, nd, cfg: len(p) <= B["L"] and len(m) <= B["L"] and len(q) <= B["L"] and 0 <= nd <= 1 and 0 <= cfg <= 2,
@@ -165,7 +166,8 @@ def _pool(i: int):
          note="the document is built with _html assigned directly so that the constructor's regex scan does not run over symbolic text")
 def h_placeholder(p: str, m: str, q: str, nd: int, cfg: int) -> bool:
     """render() replaces only the first occurrence of the placeholder, with the listing and dependency markup C11 prescribes, leaving all other text untouched"""
-    deps = [_pool(2)] if nd == 1 else []
+    # one small dependency whose markup contains backslash sequences (a regex-template replacement would mangle them)
+    deps = [HTMLDependency("g", "0.1", head=HTML("<!--\\1 \\g<0> \\n-->"))] if nd == 1 else []
     prefix, iv = pick(cfg, [("lib", True), (None, False), ("a/b", True)])
     doc = HTMLTextDocument("", deps=list(deps), deps_replace_pattern=PH)
     doc._html = p + PH + m + PH + q
